@@ -69,6 +69,15 @@ def run(ck: Checker):
         for c in streamlet_classes(mod):
             init = c.method('__init__')
             uses = _uses_consuming(init, {'instream'})
+            # ... nor read it in any other way: a slice / index / len / method call at build time takes a snapshot of a source
+            # that may be filled later (and is looked at again on every consumption)
+            for n_ in walk_deep_func(init.node):
+                if isinstance(n_, ast.Subscript) and is_name(n_.value, 'instream') and isinstance(n_.ctx, ast.Load):
+                    uses.append((n_, f'indexed / sliced at L{n_.lineno} (`{norm_text(n_)}`): the operator works on a snapshot taken when the pipeline was built'))
+                if isinstance(n_, ast.Call) and isinstance(n_.func, ast.Attribute) and is_name(n_.func.value, 'instream'):
+                    uses.append((n_, f'called at L{n_.lineno} (`{norm_text(n_)[:40]}`)'))
+                if isinstance(n_, ast.Call) and (dotted(n_.func) or '') in ('len', 'reversed', 'copy.copy', 'copy.deepcopy') and any(is_name(a_, 'instream') for a_ in n_.args):
+                    uses.append((n_, f'passed to `{dotted(n_.func)}` at L{n_.lineno}'))
             ck.ob('C03-1', init, (init.node.lineno, f'{c.name}.__init__'), not uses, 'the incoming stream is only stored' if not uses else f'building the pipeline consumes the source: `instream` is {uses[0][1]}')
     # Stream / AsyncStream constructors and operator methods
     ops = []
@@ -265,5 +274,10 @@ def run(ck: Checker):
     for p in c05.pairs(ck):
         if p.fin is not None:
             c05.check_stop_flag(ck, 'C03-9', p)
+        else:
+            # "taking the first k outputs": stopping a parmap stream early must return -- the stop flag is raised
+            # before the drain, so that the join of the feeder cannot wedge on a refilled queue (the C05-3/-4 obligations)
+            c05.check_stop_flag(ck, 'C03-9', p)
+            c05.check_join_safety(ck, 'C03-9', p)
     for q in ('fifo_stream', 'async_fifo_stream'):
         fifo.check_consumer_pairing(ck, 'C03-9', fifo.discover(ck.repo, smod.func(q)))
